@@ -8,7 +8,8 @@ import eqlgen as G
 from core import Case
 
 PID = "C02"
-LEAN_MODULES = ["KrroodVerif.Props.C02", "KrroodVerif.Props.C01", "KrroodVerif.Props.C01Typed"]
+LEAN_MODULES = ["KrroodVerif.Props.C02", "KrroodVerif.Props.C01", "KrroodVerif.Props.C01Typed",
+                "KrroodVerif.Props.C02Rewrites"]
 THEOREMS = [
     "KrroodVerif.Eql.C02_multiplicity",
     "KrroodVerif.Eql.C02_the",
@@ -19,7 +20,69 @@ THEOREMS = [
     "KrroodVerif.Eql.C02_poset_negated_atom",
     "KrroodVerif.Eql.C01_cover",
     "KrroodVerif.Eql.eval_total",
+    # construction-time rewrites as a table regenerated from the source (Model/EqlRewrites.lean, Props/C02Rewrites.lean)
+    "KrroodVerif.Eql.buildWith_rewrites_eq_build",
+    "KrroodVerif.Eql.buildWith_rewrites_ofS",
+    "KrroodVerif.Eql.satE_buildWith",
+    "KrroodVerif.Eql.satS_toS",
+    "KrroodVerif.Eql.satE_build_of_table",
+    "KrroodVerif.Eql.satE_invertWith",
+    "KrroodVerif.Eql.rewritesOk_or_equal_vars",
+    "KrroodVerif.Eql.buildWith_or_pair",
+    "KrroodVerif.Eql.buildWith_eq_build_of_notOnAtoms",
+    "KrroodVerif.Eql.C02_multiplicity_okTable",
+    "KrroodVerif.Eql.deMorganTable_ok",
+    "KrroodVerif.Eql.complementTable_rejected",
+    "KrroodVerif.Eql.orTables_rejected",
+    "KrroodVerif.Eql.satE_invComparatorWith_noFlat_partial",
 ]
+TRANSLATED = ["KrroodVerif.Eql.Translated.C02_rewrites_translated_eq_model",
+              "KrroodVerif.Eql.Translated.C02_rewrites_translated_ok"]
+
+
+def extra_obligations():
+    """Second tie: regenerate the table of construction-time rewrites (`optimize_or`, `chained_logic`, `and_`/`or_`/`not_`/
+    `exists`/`for_all`/`contains`/`in_`, every `_invert_` along the MRO) from /repo's CURRENT source (Python ast) and have
+    the kernel re-check that it IS the table the model's `build` transcribes (`buildWith_rewrites_eq_build`) and that it
+    passes `RewritesOk` (hypothesis of `satE_buildWith`, `rewritesOk_or_equal_vars`, `C02_multiplicity_okTable`)."""
+    import os
+    import re
+    import subprocess
+    import core
+    from translate import c02_translate as T
+    try:
+        tab = T.table((core.REPO / T.SYMBOLIC).read_text(), (core.REPO / T.ENTITY).read_text())
+        text = T.render(tab)
+    except (T.TranslationError, SyntaxError, OSError, RecursionError, KeyError) as e:
+        return [{"name": n, "ok": False, "detail": f"translator rejected the source: {e}"} for n in TRANSLATED]
+    tmp = core.LEAN_DIR / ".lake" / "audit"
+    tmp.mkdir(parents=True, exist_ok=True)
+    f = tmp / f"C02Translated_{PID}_{os.getpid()}.lean"
+    f.write_text(text + "".join(f"#print axioms {n}\n" for n in TRANSLATED))
+    try:
+        p = subprocess.run(["lake", "env", "lean", str(f)], cwd=str(core.LEAN_DIR), capture_output=True, text=True, timeout=600)
+    finally:
+        try:
+            f.unlink()
+        except OSError:
+            pass
+    out = " ".join(((p.stdout or "") + (p.stderr or "")).split())
+    res = []
+    differs = T.diff(tab)
+    for n in TRANSLATED:
+        m = re.search(r"'" + re.escape(n) + r"' depends on axioms: \[([^\]]*)\]", out)
+        none = re.search(r"'" + re.escape(n) + r"' does not depend on any axioms", out)
+        ax = [a.strip() for a in m.group(1).split(",")] if m else ([] if none else None)
+        # the two obligations are independent (the table may differ from the model's and still be admissible): a
+        # theorem whose `decide` fails is added with `sorryAx`, which is not an allowed axiom — so no use of the exit code
+        ok = ax is not None and set(ax) <= core.ALLOWED_AXIOMS
+        res.append({"name": n, "ok": ok, "axioms": ax,
+                    "detail": "regenerated table differs from the model's in: " + ("; ".join(differs) or "nothing")
+                              + "\n" + text[text.find("def rewrites"):text.find("/-- the table")]
+                              + (p.stdout or "")[-1500:] + (p.stderr or "")[-800:]})
+    return res
+
+
 MODEL_FUNCTION = "Eql.evalQuery / Eql.eval (Model/Eql.lean) on the NNF conjunctive/else-if fragment"
 TRUSTED = [
     "Lean 4.33 kernel; axioms of each theorem listed under coverage.theorems",
